@@ -18,7 +18,9 @@ pub fn dispatch(ctx: &Ctx, rest: &[String]) -> i32 {
         "C10" => c10(ctx),
         "C18" => c18(ctx),
         "C01" | "C02" | "C07" | "C08" | "C20" => histcheck::run(ctx),
+        "C04" => c04::run(ctx),
         "C06" => c06::run(ctx),
+        "C16" => c16::run(ctx),
         "C06-child" => c06::child(ctx, rest),
         other => {
             eprintln!("unknown property {other}");
@@ -172,6 +174,8 @@ fn c18(ctx: &Ctx) -> i32 {
     )
 }
 
+pub mod c04;
 pub mod c06;
+pub mod c16;
 pub mod hist;
 pub mod histcheck;
